@@ -281,7 +281,8 @@ def assemble(repo):
     specs = load_specs()
     imports = ["use vstd::prelude::*;", "use vstd::std_specs::cmp::PartialEqSpec;",
                "use vstd::std_specs::maybe_uninit::*;", "use vstd::std_specs::iter::IteratorSpec;",
-               "use vstd::raw_ptr::MemContents;", "use core::mem::MaybeUninit;", "use core::borrow::Borrow;",
+               "use vstd::raw_ptr::MemContents;", "use vstd::slice::SliceIndexSpec;", "use core::slice::SliceIndex;",
+               "use core::mem::MaybeUninit;", "use core::borrow::Borrow;",
                "use core::mem;  // src/entry.rs: `use core::mem;`"]
     structs = [extract_struct(repo, s) for s in specs.get("struct", [])]
     names = [re.search(r"pub (?:struct|enum) (\w+)", t).group(1) for t in structs]
